@@ -158,6 +158,22 @@ func (w *World) Locks() *LockModel {
 								if _, isLit := r.(*ast.CompositeLit); isLit {
 									continue
 								}
+								// … or has just received from a constructor, and is still setting up: the store comes
+								// before the function starts any goroutine (the flusher is started last)
+								if call, isCall := r.(*ast.CallExpr); isCall {
+									if cf := w.FuncOf(f.Callee(call)); cf != nil && w.isStoreConstructor(cf) {
+										beforeGo := true
+										ast.Inspect(f.Decl.Body, func(z ast.Node) bool {
+											if g, ok := z.(*ast.GoStmt); ok && g.Pos() < e.Pos() {
+												beforeGo = false
+											}
+											return true
+										})
+										if beforeGo {
+											continue
+										}
+									}
+								}
 							}
 						}
 						m.sharedFld[v] = "fileStore." + v.Name()
